@@ -1,184 +1,181 @@
 ------------------------------ MODULE C10_Rearr ------------------------------
 (* S-specification for C10: the REARRANGEMENT MACHINE.                                                  *)
 (*   state   : mode  -- "arith" | "conj" | "disj" | "nnf"                                                *)
-(*             ty    -- nat, int or real for "arith" and bool otherwise                                   *)
+(*             ty    -- "nat" | "ring" (int and real: the types with a ring subtraction) | "bool"        *)
 (*             cls   -- the class of the orbit, fixed when the orbit starts: the polynomial (arith), the *)
 (*                      member set (conj, disj), the starting formula (nnf)                              *)
-(*             e     -- the current expression (HOL term, codec encoding)                                *)
+(*             e     -- the current expression (abstract syntax of C10_Laws)                             *)
 (*   actions : at any position reachable through arithmetic (resp. /\ , \/ , ~) operators:               *)
 (*             Comm, Assoc (both ways), Distrib (left/right), Factor (left/right), AddZero / DropZero,   *)
-(*             MulOne / DropOne, FoldNum / SplitNum, SucPlus, SubNeg / NegMul / NegNeg / NegAdd (types   *)
-(*             with a ring subtraction only: truncated subtraction on nat is an opaque atom and no       *)
-(*             action looks inside it), PowUnfold / PowFold, Dup / Dedup (conj, disj), DeMorgan / DNeg   *)
+(*             MulOne / DropOne, FoldNum / SplitNum, SucPlus, SubNeg / NegMul / NegNeg / NegAdd (ring    *)
+(*             only: truncated subtraction on nat is an opaque atom and no action looks inside it),      *)
+(*             PowUnfold / PowFold (ring only), Dup / Dedup (conj, disj), DeMorgan / DNeg (nnf)          *)
 (*   property: every action preserves the polynomial PolyOf(e) (arith), the member set and the truth     *)
-(*             table (conj / disj), the truth table (nnf); every state is well-typed at the seed's type  *)
+(*             table (conj / disj), the truth table (nnf)                                                *)
 (* TLC explores the orbits of the seeds (all +,* trees with at most SeedLeaves leaves, plus hand-picked  *)
 (* seeds with - uminus ^ Suc and opaque atoms) as the reachable state space; the dump of the reachable   *)
 (* states (-dump) is the vector file: the members of one orbit are the states with the same (mode,ty,cls).*)
 EXTENDS C10_Laws
 
 CONSTANTS SeedLeaves,     \* arithmetic seeds: +,* trees with at most this many leaves
-          MaxLeaves,      \* arithmetic states have at most this many leaves
+          MaxLeaves,      \* growth of arithmetic states stops at this many leaves
           PropMembers,    \* conj/disj seeds: member sets of at most this size
           MaxMembers,     \* conj/disj states have at most this many leaves
-          MaxNnfSize,     \* nnf states have at most this term size
+          MaxNnfSize,     \* growth of nnf states stops at this size
           Rich            \* more leaves / literals / special seeds
 
-\* ------------------------------------------------------------------ constructors
-V(n, T) == <<"var", n, T>>
-Plus(T, a, b) == Op2(PlusC(T), a, b)
-Times(T, a, b) == Op2(TimesC(T), a, b)
-Minus(T, a, b) == Op2(MinusC(T), a, b)
-Um(T, a) == Op1(UminusC(T), a)
-PowN(T, a, k) == Op2(PowerC(T), a, Num(NatT, k))
-Suc(a) == Op1(SucC, a)
-Conj(a, b) == Op2(ConjC, a, b)
-Disj(a, b) == Op2(DisjC, a, b)
-
-\* ------------------------------------------------------------------ arithmetic actions at the root of t (t has type T)
-PlusRoot(t, T) ==
-  LET a == A1(t) b == A2(t) IN
-     { Plus(T, b, a) }                                                                                   \* Comm
-  \cup (IF IsOp2(b, PlusC(T)) THEN { Plus(T, Plus(T, a, A1(b)), A2(b)) } ELSE {})                       \* Assoc
-  \cup (IF IsOp2(a, PlusC(T)) THEN { Plus(T, A1(a), Plus(T, A2(a), b)) } ELSE {})
-  \cup (IF IsOp2(a, TimesC(T)) /\ IsOp2(b, TimesC(T)) /\ A1(a) = A1(b) THEN { Times(T, A1(a), Plus(T, A2(a), A2(b))) } ELSE {})   \* Factor
-  \cup (IF IsOp2(a, TimesC(T)) /\ IsOp2(b, TimesC(T)) /\ A2(a) = A2(b) THEN { Times(T, Plus(T, A1(a), A1(b)), A2(a)) } ELSE {})
-  \cup (IF b = ZeroC(T) THEN {a} ELSE {}) \cup (IF a = ZeroC(T) THEN {b} ELSE {})                      \* DropZero
-  \cup (IF IsNum(a, T) /\ IsNum(b, T) THEN { Num(T, NumVal(a, T) + NumVal(b, T)) } ELSE {})              \* FoldNum
-  \cup (IF T = NatT /\ b = OneC(T) THEN { Suc(a) } ELSE {})                                             \* SucPlus
-  \cup (IF HasSub(T) /\ IsOp1(b, UminusC(T)) THEN { Minus(T, a, b[3]) } ELSE {})                        \* SubNeg
-TimesRoot(t, T) ==
-  LET a == A1(t) b == A2(t) IN
-     { Times(T, b, a) }
-  \cup (IF IsOp2(b, TimesC(T)) THEN { Times(T, Times(T, a, A1(b)), A2(b)) } ELSE {})
-  \cup (IF IsOp2(a, TimesC(T)) THEN { Times(T, A1(a), Times(T, A2(a), b)) } ELSE {})
-  \cup (IF IsOp2(b, PlusC(T)) THEN { Plus(T, Times(T, a, A1(b)), Times(T, a, A2(b))) } ELSE {})         \* Distrib
-  \cup (IF IsOp2(a, PlusC(T)) THEN { Plus(T, Times(T, A1(a), b), Times(T, A2(a), b)) } ELSE {})
-  \cup (IF b = OneC(T) THEN {a} ELSE {}) \cup (IF a = OneC(T) THEN {b} ELSE {})                        \* DropOne
-  \cup (IF IsNum(a, T) /\ IsNum(b, T) THEN { Num(T, NumVal(a, T) * NumVal(b, T)) } ELSE {})
-  \cup (IF HasSub(T) /\ a = Num(T, 0 - 1) THEN { Um(T, b) } ELSE {})                                    \* NegMul
-  \cup (IF T # NatT /\ a = b THEN { PowN(T, a, 2) } ELSE {})                                            \* PowFold
-  \cup (IF T # NatT /\ IsPow(a, T) /\ IsNum(A2(a), NatT) /\ A1(a) = b /\ NumVal(A2(a), NatT) < MaxExp
-        THEN { PowN(T, b, NumVal(A2(a), NatT) + 1) } ELSE {})
-ArithRoot(t, T) ==
-     (IF IsOp2(t, PlusC(T)) THEN PlusRoot(t, T) ELSE {})
-  \cup (IF IsOp2(t, TimesC(T)) THEN TimesRoot(t, T) ELSE {})
-  \cup { Plus(T, t, ZeroC(T)), Times(T, t, OneC(T)) }                                                    \* AddZero, MulOne
-  \cup (IF IsNum(t, T) /\ NumVal(t, T) >= 2 THEN { Plus(T, Num(T, NumVal(t, T) - 1), OneC(T)) } ELSE {})  \* SplitNum
-  \cup (IF T = NatT /\ IsOp1(t, SucC) THEN { Plus(T, t[3], OneC(T)) } ELSE {})
-  \cup (IF HasSub(T) /\ IsOp2(t, MinusC(T)) THEN { Plus(T, A1(t), Um(T, A2(t))) } ELSE {})
-  \cup (IF HasSub(T) /\ IsOp1(t, UminusC(T)) /\ ~IsNum(t[3], T) THEN { Times(T, Num(T, 0 - 1), t[3]) } ELSE {})
-  \cup (IF HasSub(T) /\ IsOp1(t, UminusC(T)) /\ IsOp1(t[3], UminusC(T)) THEN { t[3][3] } ELSE {})       \* NegNeg
-  \cup (IF HasSub(T) /\ IsOp1(t, UminusC(T)) /\ IsOp2(t[3], PlusC(T)) THEN { Plus(T, Um(T, A1(t[3])), Um(T, A2(t[3]))) } ELSE {})
-  \cup (IF IsPow(t, T) /\ IsNum(A2(t), NatT) /\ NumVal(A2(t), NatT) >= 2
-        THEN { Times(T, PowN(T, A1(t), NumVal(A2(t), NatT) - 1), A1(t)) } ELSE {})                       \* PowUnfold
-  \cup (IF IsPow(t, T) /\ A2(t) = OneC(NatT) THEN { A1(t) } ELSE {})
+N0 == <<"n", 0>>   N1 == <<"n", 1>>
+\* ------------------------------------------------------------------ arithmetic actions at the root of t
+PlusRoot(t, ring) ==
+  LET a == t[2] b == t[3] IN
+     { <<"+", b, a>> }                                                                                   \* Comm
+  \cup (IF b[1] = "+" THEN { <<"+", <<"+", a, b[2]>>, b[3]>> } ELSE {})                                 \* Assoc
+  \cup (IF a[1] = "+" THEN { <<"+", a[2], <<"+", a[3], b>> >> } ELSE {})
+  \cup (IF a[1] = "*" /\ b[1] = "*" /\ a[2] = b[2] THEN { <<"*", a[2], <<"+", a[3], b[3]>> >> } ELSE {})   \* Factor
+  \cup (IF a[1] = "*" /\ b[1] = "*" /\ a[3] = b[3] THEN { <<"*", <<"+", a[2], b[2]>>, a[3]>> } ELSE {})
+  \cup (IF b = N0 THEN {a} ELSE {}) \cup (IF a = N0 THEN {b} ELSE {})                                  \* DropZero
+  \cup (IF a[1] = "n" /\ b[1] = "n" THEN { <<"n", a[2] + b[2]>> } ELSE {})                              \* FoldNum
+  \cup (IF ~ring /\ b = N1 THEN { <<"S", a>> } ELSE {})                                                 \* SucPlus
+  \cup (IF ring /\ b[1] = "neg" THEN { <<"-", a, b[2]>> } ELSE {})                                      \* SubNeg
+TimesRoot(t, ring) ==
+  LET a == t[2] b == t[3] IN
+     { <<"*", b, a>> }
+  \cup (IF b[1] = "*" THEN { <<"*", <<"*", a, b[2]>>, b[3]>> } ELSE {})
+  \cup (IF a[1] = "*" THEN { <<"*", a[2], <<"*", a[3], b>> >> } ELSE {})
+  \cup (IF b[1] = "+" THEN { <<"+", <<"*", a, b[2]>>, <<"*", a, b[3]>> >> } ELSE {})                    \* Distrib
+  \cup (IF a[1] = "+" THEN { <<"+", <<"*", a[2], b>>, <<"*", a[3], b>> >> } ELSE {})
+  \cup (IF b = N1 THEN {a} ELSE {}) \cup (IF a = N1 THEN {b} ELSE {})                                  \* DropOne
+  \cup (IF a[1] = "n" /\ b[1] = "n" THEN { <<"n", a[2] * b[2]>> } ELSE {})
+  \cup (IF ring /\ a = <<"neg", N1>> THEN { <<"neg", b>> } ELSE {})                                     \* NegMul
+  \cup (IF ring /\ a = b THEN { <<"^", a, 2>> } ELSE {})                                                \* PowFold
+  \cup (IF ring /\ a[1] = "^" /\ a[2] = b /\ a[3] < MaxExp THEN { <<"^", b, a[3] + 1>> } ELSE {})
+ArithRoot(t, ring) ==
+     (IF t[1] = "+" THEN PlusRoot(t, ring) ELSE {})
+  \cup (IF t[1] = "*" THEN TimesRoot(t, ring) ELSE {})
+  \cup { <<"+", t, N0>>, <<"*", t, N1>> }                                                                \* AddZero, MulOne
+  \cup (IF t[1] = "n" /\ t[2] >= 2 THEN { <<"+", <<"n", t[2] - 1>>, N1>> } ELSE {})                      \* SplitNum
+  \cup (IF t[1] = "S" THEN { <<"+", t[2], N1>> } ELSE {})
+  \cup (IF t[1] = "-" THEN { <<"+", t[2], <<"neg", t[3]>> >> } ELSE {})
+  \cup (IF t[1] = "neg" /\ t[2][1] # "n" THEN { <<"*", <<"neg", N1>>, t[2]>> } ELSE {})
+  \cup (IF t[1] = "neg" /\ t[2][1] = "neg" THEN { t[2][2] } ELSE {})                                     \* NegNeg
+  \cup (IF t[1] = "neg" /\ t[2][1] = "+" THEN { <<"+", <<"neg", t[2][2]>>, <<"neg", t[2][3]>> >> } ELSE {})
+  \cup (IF t[1] = "^" /\ t[3] >= 2 THEN { <<"*", <<"^", t[2], t[3] - 1>>, t[2]>> } ELSE {})             \* PowUnfold
+  \cup (IF t[1] = "^" /\ t[3] = 1 THEN { t[2] } ELSE {})
 RECURSIVE ArithSteps(_,_)
-ArithSteps(t, T) ==
-  ArithRoot(t, T) \cup
-  (IF IsOp2(t, PlusC(T)) \/ IsOp2(t, TimesC(T)) \/ (HasSub(T) /\ IsOp2(t, MinusC(T)))
-   THEN { Op2(t[2][2], s, A2(t)) : s \in ArithSteps(A1(t), T) } \cup { Op2(t[2][2], A1(t), s) : s \in ArithSteps(A2(t), T) }
-   ELSE IF (HasSub(T) /\ IsOp1(t, UminusC(T)) /\ ~IsNum(t[3], T)) \/ (T = NatT /\ IsOp1(t, SucC))
-   THEN { Op1(t[2], s) : s \in ArithSteps(t[3], T) }
-   ELSE IF IsPow(t, T) THEN { Op2(PowerC(T), s, A2(t)) : s \in ArithSteps(A1(t), T) }
-   ELSE {})
+ArithSteps(t, ring) ==
+  ArithRoot(t, ring) \cup
+  (CASE Bin2(t) -> { <<t[1], s, t[3]>> : s \in ArithSteps(t[2], ring) } \cup { <<t[1], t[2], s>> : s \in ArithSteps(t[3], ring) }
+     [] t[1] = "S" \/ (t[1] = "neg" /\ t[2][1] # "n") -> { <<t[1], s>> : s \in ArithSteps(t[2], ring) }
+     [] t[1] = "^" -> { <<"^", s, t[3]>> : s \in ArithSteps(t[2], ring) }
+     [] OTHER -> {})
 
-\* ------------------------------------------------------------------ conjunction / disjunction actions (c = ConjC or DisjC)
+\* ------------------------------------------------------------------ conjunction / disjunction actions (c = "and" or "or")
 ACRoot(t, c) ==
-  { Op2(c, t, t) }                                                                                       \* Dup
-  \cup (IF IsOp2(t, c) THEN
-          LET a == A1(t) b == A2(t) IN
-             { Op2(c, b, a) }
-          \cup (IF IsOp2(b, c) THEN { Op2(c, Op2(c, a, A1(b)), A2(b)) } ELSE {})
-          \cup (IF IsOp2(a, c) THEN { Op2(c, A1(a), Op2(c, A2(a), b)) } ELSE {})
+  { <<c, t, t>> }                                                                                        \* Dup
+  \cup (IF t[1] = c THEN
+          LET a == t[2] b == t[3] IN
+             { <<c, b, a>> }
+          \cup (IF b[1] = c THEN { <<c, <<c, a, b[2]>>, b[3]>> } ELSE {})
+          \cup (IF a[1] = c THEN { <<c, a[2], <<c, a[3], b>> >> } ELSE {})
           \cup (IF a = b THEN {a} ELSE {})                                                               \* Dedup
         ELSE {})
 RECURSIVE ACSteps(_,_), ACLeaves(_,_)
 ACSteps(t, c) == ACRoot(t, c) \cup
-  (IF IsOp2(t, c) THEN { Op2(c, s, A2(t)) : s \in ACSteps(A1(t), c) } \cup { Op2(c, A1(t), s) : s \in ACSteps(A2(t), c) } ELSE {})
-ACLeaves(t, c) == IF IsOp2(t, c) THEN ACLeaves(A1(t), c) + ACLeaves(A2(t), c) ELSE 1
+  (IF t[1] = c THEN { <<c, s, t[3]>> : s \in ACSteps(t[2], c) } \cup { <<c, t[2], s>> : s \in ACSteps(t[3], c) } ELSE {})
+ACLeaves(t, c) == IF t[1] = c THEN ACLeaves(t[2], c) + ACLeaves(t[3], c) ELSE 1
 
 \* ------------------------------------------------------------------ negation actions
+Not(a) == <<"not", a>>
 NnfRoot(t) ==
-  { Neg(Neg(t)) }
-  \cup (IF IsOp1(t, NegC) /\ IsOp1(t[3], NegC) THEN { t[3][3] } ELSE {})
-  \cup (IF IsOp1(t, NegC) /\ IsOp2(t[3], ConjC) THEN { Disj(Neg(A1(t[3])), Neg(A2(t[3]))) } ELSE {})
-  \cup (IF IsOp1(t, NegC) /\ IsOp2(t[3], DisjC) THEN { Conj(Neg(A1(t[3])), Neg(A2(t[3]))) } ELSE {})
-  \cup (IF IsOp2(t, DisjC) /\ IsOp1(A1(t), NegC) /\ IsOp1(A2(t), NegC) THEN { Neg(Conj(A1(t)[3], A2(t)[3])) } ELSE {})
-  \cup (IF IsOp2(t, ConjC) /\ IsOp1(A1(t), NegC) /\ IsOp1(A2(t), NegC) THEN { Neg(Disj(A1(t)[3], A2(t)[3])) } ELSE {})
+  { Not(Not(t)) }
+  \cup (IF t[1] = "not" /\ t[2][1] = "not" THEN { t[2][2] } ELSE {})
+  \cup (IF t[1] = "not" /\ t[2][1] = "and" THEN { <<"or", Not(t[2][2]), Not(t[2][3])>> } ELSE {})
+  \cup (IF t[1] = "not" /\ t[2][1] = "or" THEN { <<"and", Not(t[2][2]), Not(t[2][3])>> } ELSE {})
+  \cup (IF t[1] = "or" /\ t[2][1] = "not" /\ t[3][1] = "not" THEN { Not(<<"and", t[2][2], t[3][2]>>) } ELSE {})
+  \cup (IF t[1] = "and" /\ t[2][1] = "not" /\ t[3][1] = "not" THEN { Not(<<"or", t[2][2], t[3][2]>>) } ELSE {})
 RECURSIVE NnfSteps(_)
 NnfSteps(t) == NnfRoot(t) \cup
-  (IF IsOp2(t, ConjC) \/ IsOp2(t, DisjC)
-   THEN { Op2(t[2][2], s, A2(t)) : s \in NnfSteps(A1(t)) } \cup { Op2(t[2][2], A1(t), s) : s \in NnfSteps(A2(t)) }
-   ELSE IF IsOp1(t, NegC) THEN { Neg(s) : s \in NnfSteps(t[3]) } ELSE {})
+  (CASE t[1] \in {"and", "or"} -> { <<t[1], s, t[3]>> : s \in NnfSteps(t[2]) } \cup { <<t[1], t[2], s>> : s \in NnfSteps(t[3]) }
+     [] t[1] = "not" -> { Not(s) : s \in NnfSteps(t[2]) }
+     [] OTHER -> {})
 
 \* ------------------------------------------------------------------ one step of the machine (growth is size-bounded)
 Steps(m, T, x) ==
-  CASE m = "arith" -> LET n == LeafCount(x, T) IN
-                      { y \in ArithSteps(x, T) : (LeafCount(y, T) <= MaxLeaves \/ LeafCount(y, T) <= n) /\ Mag(y, T) < 10000 }
-    [] m = "conj" -> { y \in ACSteps(x, ConjC) : ACLeaves(y, ConjC) <= MaxMembers }
-    [] m = "disj" -> { y \in ACSteps(x, DisjC) : ACLeaves(y, DisjC) <= MaxMembers }
-    [] m = "nnf" -> { y \in NnfSteps(x) : Size(y) <= MaxNnfSize \/ Size(y) <= Size(x) }
+  CASE m = "arith" -> LET n == LeafCount(x) IN
+                      { y \in ArithSteps(x, T = "ring") : (LeafCount(y) <= MaxLeaves \/ LeafCount(y) <= n) /\ Mag(y) < 10000 }
+    [] m = "conj" -> { y \in ACSteps(x, "and") : ACLeaves(y, "and") <= MaxMembers }
+    [] m = "disj" -> { y \in ACSteps(x, "or") : ACLeaves(y, "or") <= MaxMembers }
+    [] m = "nnf" -> { y \in NnfSteps(x) : PSize(y) <= MaxNnfSize \/ PSize(y) <= PSize(x) }
 
 \* ------------------------------------------------------------------ seeds
-ArithLeaves(T) == { V("x", T), V("y", T), Num(T, 0), Num(T, 1), Num(T, 2) } \cup (IF Rich THEN { V("z", T), Num(T, 3) } ELSE {})
-RECURSIVE Trees(_,_)
-Trees(n, T) == IF n = 1 THEN ArithLeaves(T)
-               ELSE UNION { { Op2(c, a, b) : c \in {PlusC(T), TimesC(T)}, a \in Trees(k, T), b \in Trees(n - k, T) } : k \in 1..(n - 1) }
+vx == <<"v", "x">>  vy == <<"v", "y">>  vz == <<"v", "z">>
+ArithLeaves == { vx, vy, N0, N1, <<"n", 2>> } \cup (IF Rich THEN { vz, <<"n", 3>> } ELSE {})
+RECURSIVE Trees(_)
+Trees(n) == IF n = 1 THEN ArithLeaves
+            ELSE UNION { { <<c, a, b>> : c \in {"+", "*"}, a \in Trees(k), b \in Trees(n - k) } : k \in 1..(n - 1) }
+TSub(a, b) == <<"o", <<"tsub", a, b>> >>
 Special(T) ==
-  LET x == V("x", T) y == V("y", T) z == V("z", T) IN
-  IF T = NatT THEN { Plus(T, Suc(x), y), Times(T, x, Suc(y)), Suc(Suc(x)),
-                     Plus(T, Minus(T, x, y), z), Times(T, Minus(T, x, y), Plus(T, x, OneC(T))), Plus(T, Minus(T, x, y), Minus(T, x, y)) }
-                   \cup (IF Rich THEN { Times(T, Suc(x), Suc(y)), Plus(T, Times(T, Minus(T, x, y), z), x) } ELSE {})
-  ELSE { Minus(T, x, y), Minus(T, x, Minus(T, y, x)), Um(T, Plus(T, x, y)), Minus(T, x, x),
-         Times(T, Minus(T, x, y), Plus(T, x, y)), Plus(T, Times(T, x, x), x), Times(T, PowN(T, x, 2), x),
-         Plus(T, PowN(T, x, 2), Times(T, Num(T, 2), x)) }
-       \cup (IF T = RealT THEN { PowN(T, Plus(T, x, y), 2), Plus(T, PowN(T, x, 2), Plus(T, x, y)) } ELSE {})
-       \cup (IF Rich THEN { Minus(T, Times(T, x, y), Times(T, y, x)), Times(T, Plus(T, x, OneC(T)), Minus(T, x, OneC(T))),
-                            Plus(T, Times(T, x, Times(T, x, y)), Times(T, x, y)), Um(T, Minus(T, x, Um(T, y))) } ELSE {})
-       \cup (IF Rich /\ T = RealT THEN { PowN(T, Plus(T, x, OneC(T)), 3), Times(T, PowN(T, Plus(T, x, y), 2), x) } ELSE {})
-ArithSeeds(T) == UNION { Trees(n, T) : n \in 1..SeedLeaves } \cup Special(T)
+  IF T = "nat" THEN { <<"+", <<"S", vx>>, vy>>, <<"*", vx, <<"S", vy>> >>, <<"S", <<"S", vx>> >>,
+                      <<"+", TSub(vx, vy), vz>>, <<"*", TSub(vx, vy), <<"+", vx, N1>> >>, <<"+", TSub(vx, vy), TSub(vx, vy)>> }
+                    \cup (IF Rich THEN { <<"*", <<"S", vx>>, <<"S", vy>> >>, <<"+", <<"*", TSub(vx, vy), vz>>, vx>> } ELSE {})
+  ELSE { <<"-", vx, vy>>, <<"-", vx, <<"-", vy, vx>> >>, <<"neg", <<"+", vx, vy>> >>, <<"-", vx, vx>>,
+         <<"*", <<"-", vx, vy>>, <<"+", vx, vy>> >>, <<"+", <<"*", vx, vx>>, vx>>, <<"*", <<"^", vx, 2>>, vx>>,
+         <<"+", <<"^", vx, 2>>, <<"*", <<"n", 2>>, vx>> >>, <<"^", <<"+", vx, vy>>, 2>>, <<"+", <<"^", vx, 2>>, <<"+", vx, vy>> >> }
+       \cup (IF Rich THEN { <<"-", <<"*", vx, vy>>, <<"*", vy, vx>> >>, <<"*", <<"+", vx, N1>>, <<"-", vx, N1>> >>,
+                            <<"+", <<"*", vx, <<"*", vx, vy>> >>, <<"*", vx, vy>> >>, <<"neg", <<"-", vx, <<"neg", vy>> >> >>,
+                            <<"^", <<"+", vx, N1>>, 3>>, <<"*", <<"^", <<"+", vx, vy>>, 2>>, vx>> } ELSE {})
+ArithSeeds(T) == UNION { Trees(n) : n \in 1..SeedLeaves } \cup Special(T)
 
-bA == V("A", BoolT)  bB == V("B", BoolT)  bC == V("C", BoolT)
-Lits == { bA, bB, Neg(bA), TrueC, FalseC, Imp(bA, bB) } \cup (IF Rich THEN { bC, Neg(bB), Disj(bA, bC) } ELSE {})
+bA == <<"v", "A">>  bB == <<"v", "B">>  bC == <<"v", "C">>
+Lits == { bA, bB, Not(bA), <<"T">>, <<"F">>, <<"imp", bA, bB>> } \cup (IF Rich THEN { bC, Not(bB), <<"or", bA, bC>> } ELSE {})
+\* a member of a disjunction is not itself a disjunction
+Pool(c) == IF c = "or" THEN Lits \ { <<"or", bA, bC>> } ELSE Lits
 \* one chain per member set (in the order TLC enumerates the set); the other arrangements are reached by the actions
 RECURSIVE Chain(_,_)
 Chain(c, M) == IF Cardinality(M) = 1 THEN CHOOSE m \in M : TRUE
-               ELSE LET m == CHOOSE y \in M : TRUE IN Op2(c, m, Chain(c, M \ {m}))
-\* a member of a disjunction is not itself a disjunction
-Pool(c) == IF c = DisjC THEN Lits \ { Disj(bA, bC) } ELSE Lits
+               ELSE LET m == CHOOSE y \in M : TRUE IN <<c, m, Chain(c, M \ {m})>>
 MemberSets(c) == { M \in SUBSET Pool(c) : Cardinality(M) >= 1 /\ Cardinality(M) <= PropMembers }
-NnfSeeds == { Neg(Conj(bA, bB)), Neg(Disj(bA, Neg(bB))), Neg(Neg(bA)), Neg(Conj(bA, Disj(bB, bA))),
-              Conj(Neg(Disj(bA, bB)), bA), Neg(TrueC), Disj(Neg(FalseC), bA) }
-            \cup (IF Rich THEN { Neg(Conj(Disj(bA, bB), Neg(bC))), Neg(Disj(Conj(bA, bB), Conj(Neg(bA), bC))), Neg(Conj(Imp(bA, bB), bA)) } ELSE {})
-SeedSet == { <<"arith", s>> : s \in ArithSeeds(NatT) \cup ArithSeeds(IntT) \cup ArithSeeds(RealT) }
-           \cup { <<"conj", Chain(ConjC, M)>> : M \in MemberSets(ConjC) } \cup { <<"disj", Chain(DisjC, M)>> : M \in MemberSets(DisjC) }
-           \cup { <<"nnf", s>> : s \in NnfSeeds }
-ClassOf(m, T, x) == CASE m = "arith" -> PolyOf(x, T) [] m = "conj" -> MemberSet(x, ConjC) [] m = "disj" -> MemberSet(x, DisjC) [] m = "nnf" -> {x}
+NnfSeeds == { Not(<<"and", bA, bB>>), Not(<<"or", bA, Not(bB)>>), Not(Not(bA)), Not(<<"and", bA, <<"or", bB, bA>> >>),
+              <<"and", Not(<<"or", bA, bB>>), bA>>, Not(<<"T">>), <<"or", Not(<<"F">>), bA>> }
+            \cup (IF Rich THEN { Not(<<"and", <<"or", bA, bB>>, Not(bC)>>), Not(<<"or", <<"and", bA, bB>>, <<"and", Not(bA), bC>> >>),
+                                 Not(<<"and", <<"imp", bA, bB>>, bA>>) } ELSE {})
+SeedSet == { <<"arith", "nat", s>> : s \in ArithSeeds("nat") } \cup { <<"arith", "ring", s>> : s \in ArithSeeds("ring") }
+           \cup { <<"conj", "bool", Chain("and", M)>> : M \in MemberSets("and") } \cup { <<"disj", "bool", Chain("or", M)>> : M \in MemberSets("or") }
+           \cup { <<"nnf", "bool", s>> : s \in NnfSeeds }
+ClassOf(m, x) == CASE m = "arith" -> PolyOf(x) [] m = "conj" -> MemberSet(x, "and") [] m = "disj" -> MemberSet(x, "or") [] m = "nnf" -> {x}
 
 \* ------------------------------------------------------------------ the machine
 VARIABLES mode, ty, cls, e
 vars == <<mode, ty, cls, e>>
-Init == \E p \in SeedSet : /\ mode = p[1] /\ e = p[2] /\ ty = TypeOf(p[2], <<>>)
-                           /\ cls = ClassOf(p[1], TypeOf(p[2], <<>>), p[2])
+Init == \E p \in SeedSet : mode = p[1] /\ ty = p[2] /\ e = p[3] /\ cls = ClassOf(p[1], p[3])
 Next == /\ e' \in Steps(mode, ty, e)
         /\ UNCHANGED <<mode, ty, cls>>
 Spec == Init /\ [][Next]_vars
 
 \* ------------------------------------------------------------------ properties
+\* well-formedness of the abstract syntax at the state's type: ring operators only at "ring", Suc and truncated subtraction only at "nat"
+RECURSIVE WfA(_,_), WfP(_)
+WfA(x, ring) == CASE x[1] = "v" -> TRUE [] x[1] = "n" -> x[2] >= 0
+                  [] x[1] \in {"+", "*"} -> WfA(x[2], ring) /\ WfA(x[3], ring)
+                  [] x[1] = "-" -> ring /\ WfA(x[2], ring) /\ WfA(x[3], ring)
+                  [] x[1] = "neg" -> ring /\ WfA(x[2], ring)
+                  [] x[1] = "^" -> ring /\ x[3] >= 1 /\ x[3] <= MaxExp /\ WfA(x[2], ring)
+                  [] x[1] = "S" -> ~ring /\ WfA(x[2], ring)
+                  [] x[1] = "o" -> ~ring /\ x[2][1] = "tsub"
+                  [] OTHER -> FALSE
+WfP(x) == CASE x[1] \in {"v", "T", "F"} -> TRUE [] x[1] = "not" -> WfP(x[2]) [] PBin(x) -> WfP(x[2]) /\ WfP(x[3]) [] OTHER -> FALSE
 TypeInv == /\ mode \in {"arith", "conj", "disj", "nnf"}
-           /\ TypeOf(e, <<>>) = ty
-           /\ (mode = "arith") = (ty \in NumTypes)
-           /\ (mode # "arith") => ty = BoolT
-PolyPreserved == mode = "arith" => PolyExaminable(e, ty) /\ PolyOf(e, ty) = cls
-MembersPreserved == /\ mode = "conj" => MemberSet(e, ConjC) = cls
-                    /\ mode = "disj" => MemberSet(e, DisjC) = cls
+           /\ (mode = "arith") => ty \in {"nat", "ring"} /\ WfA(e, ty = "ring")
+           /\ (mode # "arith") => ty = "bool" /\ WfP(e)
+PolyPreserved == mode = "arith" => PolyExaminable(e) /\ PolyOf(e) = cls
+MembersPreserved == /\ mode = "conj" => MemberSet(e, "and") = cls
+                    /\ mode = "disj" => MemberSet(e, "or") = cls
 \* the truth table is a function of the class
 RECURSIVE FoldSet(_,_,_)
-FoldSet(c, M, unit) == IF M = {} THEN unit ELSE LET m == CHOOSE y \in M : TRUE IN Op2(c, m, FoldSet(c, M \ {m}, unit))
-ClassFormula == CASE mode = "conj" -> FoldSet(ConjC, cls, TrueC) [] mode = "disj" -> FoldSet(DisjC, cls, FalseC)
-                  [] mode = "nnf" -> CHOOSE x \in cls : TRUE [] OTHER -> TrueC
+FoldSet(c, M, unit) == IF M = {} THEN unit ELSE LET m == CHOOSE y \in M : TRUE IN <<c, m, FoldSet(c, M \ {m}, unit)>>
+ClassFormula == CASE mode = "conj" -> FoldSet("and", cls, <<"T">>) [] mode = "disj" -> FoldSet("or", cls, <<"F">>)
+                  [] mode = "nnf" -> CHOOSE x \in cls : TRUE [] OTHER -> <<"T">>
 TablePreserved == mode # "arith" => PropExaminable(e, ClassFormula) /\ SameTable(e, ClassFormula)
 \* no action of the machine looks inside an opaque atom
-AtomsPreserved == mode = "arith" => AtomsOf(e, ty) \subseteq UNION { MAtoms(m) : m \in Monos(cls) } \cup { a \in AtomsOf(e, ty) : a[1] = "var" }
+AtomsPreserved == mode = "arith" => \A a \in AtomsOf(e) : a[1] = "v" \/ a \in UNION { MAtoms(m) : m \in Monos(cls) }
 =============================================================================
